@@ -3,7 +3,11 @@ histories on the virtual clock.  stdin JSON {"cases": [...]} -> 'RESULT <json li
 
 Case (all times in milliseconds relative to the instant the trigger is defined):
   {"sub": "legacy"|"dm", "form": "dec"|"wu", "cn": null|false|true, "hold": null|ms, "hf": null|ms,
-   "anyvar": bool, "init": bool, "ev": [[t_ms, kind], ...], "tail": ms, "tmo": ms (optional; task.wait_until timeout=)}
+   "anyvar": bool, "init": bool, "ev": [[t_ms, kind], ...], "tail": ms, "tmo": ms (optional; task.wait_until timeout=),
+   "attr": bool (optional: the expression is the attribute form pyscript.v.q == 1),
+   "pre": (optional) {"form", "attr", "init0", "ev": [kind..], "gap": [kind..]} = an earlier trigger / wait_until on the same
+          entity (phase 1) that sees "ev", is removed by a reload, then "gap" writes happen while nothing watches; "init" of
+          the case must be the truth of the CURRENT state when the judged trigger (phase 2) is defined}
 kinds: "T"/"F" watched value change making the expression true/false, "A" value change of pyscript.w (an any-change
 trigger iff anyvar, otherwise an unwatched entity), "I" attribute-only update of the watched entity, "U" unwatched entity.
 Every state write number k (1-based position in "ev") carries attribute n=k, so the kwargs of a run identify the event
@@ -17,10 +21,12 @@ from vh.hassenv import PyscriptEnv, run_virtual
 EXPR = "pyscript.v >= 't'"
 TIMEOUT_ID = 1000000
 
+EXPR_ATTR = "pyscript.v.q == 1"      # attribute-form expression: the entity is watched only through NAME.attr
+
 REPORT = """
     v = kw.get("value")
     o = kw.get("old_value")
-    event.fire("pv_run", tt=kw.get("trigger_type"), var=kw.get("var_name"), keys=sorted(kw.keys()),
+    event.fire("pv_run", ph=PHASE, tt=kw.get("trigger_type"), var=kw.get("var_name"), keys=sorted(kw.keys()),
                n=(v.n if v is not None else -1), val=(str(v) if v is not None else None),
                on=(o.n if o is not None else -1), old=(str(o) if o is not None else None))
 """
@@ -34,60 +40,101 @@ def pyval(x):
     return repr(x / 1000.0)
 
 
-def make_script(case):
+def make_script(case, phase=2):
     kws = []
-    if case["hold"] is not None:
+    if case.get("hold") is not None:
         kws.append(f"state_hold={pyval(case['hold'])}")
-    if case["hf"] is not None:
+    if case.get("hf") is not None:
         kws.append(f"state_hold_false={pyval(case['hf'])}")
-    if case["cn"] is not None:
+    if case.get("cn") is not None:
         kws.append(f"state_check_now={pyval(case['cn'])}")
     if case.get("tmo") is not None and case["form"] == "wu":
         kws.append(f"timeout={pyval(case['tmo'])}")
-    trig = [repr(EXPR)] + (["'pyscript.w'"] if case["anyvar"] else [])
+    trig = [repr(EXPR_ATTR if case.get("attr") else EXPR)] + (["'pyscript.w'"] if case.get("anyvar") else [])
+    report = REPORT.replace("PHASE", str(phase))
     if case["form"] == "dec":
         head = "@state_trigger(" + ", ".join(trig + kws) + ")\ndef pv_f(**kw):"
-        return head + REPORT
+        return head + report
     head = ("@time_trigger('startup')\ndef pv_waiter():\n    kw = task.wait_until(state_trigger=[" + ", ".join(trig) + "]"
             + "".join(", " + k for k in kws) + ")")
-    return head + REPORT
+    return head + report
+
+
+class Writer:
+    """All state writes of a case; write number n carries attributes n (id) and, for pyscript.v, q (1 = expression true)."""
+
+    def __init__(self, hass, init):
+        self.hass = hass
+        self.truth = bool(init)
+        v0 = "t0" if init else "f0"
+        self.last = {"pyscript.v": (v0, 0), "pyscript.w": ("w0", 0), "pyscript.u": ("u0", 0)}
+        self.written = {0: ("init", None, None, None)}
+        hass.states.async_set("pyscript.v", v0, {"n": 0, "q": 1 if init else 0})
+        hass.states.async_set("pyscript.w", "w0", {"n": 0})
+        hass.states.async_set("pyscript.u", "u0", {"n": 0})
+
+    def write(self, kind, n):
+        attrs = {"n": n}
+        if kind in ("T", "F"):
+            self.truth = kind == "T"
+            ent, val = "pyscript.v", ("t" if kind == "T" else "f") + str(n)
+        elif kind == "I":
+            ent, val = "pyscript.v", self.last["pyscript.v"][0]
+        elif kind == "A":
+            ent, val = "pyscript.w", "w" + str(n)
+        else:
+            ent, val = "pyscript.u", "u" + str(n)
+        if ent == "pyscript.v":
+            attrs["q"] = 1 if self.truth else 0
+        self.written[n] = (ent, val, self.last[ent][0], self.last[ent][1])
+        self.last[ent] = (val, n)
+        self.hass.states.async_set(ent, val, attrs)
 
 
 async def run_case(case):
     legacy = case["sub"] == "legacy"
+    pre = case.get("pre")
     async with PyscriptEnv(files={}, legacy=legacy) as env:
-        hass = env.hass
-        v0 = "t0" if case["init"] else "f0"
-        hass.states.async_set("pyscript.v", v0, {"n": 0})
-        hass.states.async_set("pyscript.w", "w0", {"n": 0})
-        hass.states.async_set("pyscript.u", "u0", {"n": 0})
+        wr = Writer(env.hass, pre["init0"] if pre else case["init"])
         await env.settle()
+        if pre:
+            # phase 1: an earlier trigger / task.wait_until on the same entity, then nobody watches, then outside changes
+            env.write("c05.py", make_script(pre, phase=1))
+            await env.reload()
+            n = 1000
+            for kind in pre["ev"]:
+                await env.advance(1.0)
+                n += 1
+                wr.write(kind, n)
+                await env.settle()
+            await env.advance(1.0)
+            env.write("c05.py", "# nothing\n")
+            await env.reload()
+            for kind in pre["gap"]:
+                await env.advance(1.0)
+                n += 1
+                wr.write(kind, n)
+                await env.settle()
+            await env.advance(1.0)
+            if wr.truth != bool(case["init"]):
+                raise RuntimeError("case inconsistent: init is not the truth of the current state when phase 2 starts")
         env.write("c05.py", make_script(case))
         await env.reload()
         base = env.now()
-        last = {"pyscript.v": (v0, 0), "pyscript.w": ("w0", 0), "pyscript.u": ("u0", 0)}
-        written = {0: ("init", None, None, None)}
         cur = 0.0
         for k, (t_ms, kind) in enumerate(case["ev"], start=1):
             t = t_ms / 1000.0
             if t > cur:
                 await env.advance(t - cur)
                 cur = t
-            if kind in ("T", "F"):
-                ent, val = "pyscript.v", ("t" if kind == "T" else "f") + str(k)
-            elif kind == "I":
-                ent, val = "pyscript.v", last["pyscript.v"][0]
-            elif kind == "A":
-                ent, val = "pyscript.w", "w" + str(k)
-            else:
-                ent, val = "pyscript.u", "u" + str(k)
-            written[k] = (ent, val, last[ent][0], last[ent][1])
-            last[ent] = (val, k)
-            hass.states.async_set(ent, val, {"n": k})
+            wr.write(kind, k)
             await env.settle()
         await env.advance(case["tail"] / 1000.0)
+        written = wr.written
         runs = []
         for (t, _typ, d) in env.events:
+            if d.get("ph") != 2:
+                continue
             n = d.get("n", -1)
             if d.get("tt") == "timeout":
                 ok = d.get("keys") == ["trigger_type"] and case.get("tmo") is not None
